@@ -694,6 +694,18 @@ func robustStream(r *Run) {
 			}
 		}
 	}
+	// cyclic include layouts: a file that includes itself, directly or through a second file, always or under a
+	// condition; the render must end (an error at the nesting limit of RenderFile), not overflow the stack
+	{
+		cyc := engineCfg{FS: [][2]string{{"a.html", "x{% include \"a.html\" %}"}, {"b.html", "b{% include \"c.html\" %}"},
+			{"c.html", "c{% if a %}{% include \"b.html\" %}{% endif %}"}}}
+		for _, src := range []string{"{% include \"a.html\" %}", "{% include \"b.html\" %}", "{% include a %}",
+			"{% for i in (1..2) %}{{ i }}{% include \"a.html\" %}{% endfor %}"} {
+			for _, a := range []*V{VStr("a.html"), VBool(true), VNil()} {
+				run(cyc, src, map[string]*V{"a": a}, "matrix-include-cycle")
+			}
+		}
+	}
 	// strict-variables engine on the one-variable forms
 	for _, f := range forms1[:6] {
 		for _, a := range U {
